@@ -178,6 +178,16 @@ def r08_3(run):
         ok = bool(loops) and all(any(is_method_call(c, 'listen') and c.args and dotted(c.args[0]) == lp.target.id for c in ast.walk(lp)) for lp in loops)
         run.ob('R08.3', cu, cu.node, '%s attaches all global listeners to a new object' % creator, ok, slot='future:%s' % creator,
                message='%s does not attach %s to new objects' % (creator, registry))
+    # TorState's own bookkeeping listener is registered before the global ones, so that the new
+    # object is indexed by the time any user listener hears about it (and can add listeners)
+    mc = TU(run, '_maybe_create_circuit')
+    gm = cfg_of(mc)
+    selfl = gm.nodes_where(lambda n: any(is_method_call(a, 'listen') and a.args and dotted(a.args[0]) == 'self' for a in node_asts(n)))
+    regl = [n for n in gm.live if n.kind == 'iter' and dotted(n.ast.iter) == 'self.circuit_listeners']
+    ok = bool(selfl) and bool(regl) and all(any(gm.dominates(s_, r_) for s_ in selfl) for r_ in regl)
+    run.ob('R08.3', mc, mc.node, 'the index-maintaining listener (TorState) is attached before the global listeners', ok, slot='self-first:circuit',
+           message='_maybe_create_circuit attaches the global listeners before c.listen(self): a listener added from '
+                   'inside circuit_new does not find the circuit in .circuits and never hears about it')
     for ci, name in ((circuit_cls(run), 'Circuit'), (stream_cls(run), 'Stream')):
         li = run.idx.find_method(ci, 'listen')
         g = cfg_of(li)
